@@ -256,7 +256,42 @@ func scoreOk(s float64, ok bool) string {
 }
 
 // exec runs one operation on the real set and returns the Coq term of what it returned.
-func exec(z *zset.Set[int], o *op) (out string) {
+// zapi: what every flavour of the sorted set offers (zset.New and zset.NewSafe); both must satisfy the
+// same sequential specification, so a share of every stream runs through the concurrency-safe
+// wrapper (single goroutine) against the same model and Spec.
+type zapi interface {
+	Add(elements ...int)
+	Remove(elements ...int)
+	Contains(elements ...int) bool
+	Empty() bool
+	Size() int
+	Clear()
+	Values() []int
+	Len() int
+	AddB(score float64, value int) bool
+	RemoveB(value int) (float64, bool)
+	IncrBy(incr float64, value int) (float64, bool)
+	ContainsB(value int) bool
+	Score(value int) (float64, bool)
+	Rank(value int) int
+	RevRank(value int) int
+	Count(min, max float64) int
+	CountWithOpt(min, max float64, opt zset.RangeOpt) int
+	Range(start, stop int) []zset.Node[int]
+	RangeByScore(min, max float64) []zset.Node[int]
+	RangeByScoreWithOpt(min, max float64, opt zset.RangeOpt) []zset.Node[int]
+	RevRange(start, stop int) []zset.Node[int]
+	RevRangeByScore(max, min float64) []zset.Node[int]
+	RevRangeByScoreWithOpt(max, min float64, opt zset.RangeOpt) []zset.Node[int]
+	RemoveRangeByRank(start, stop int) []zset.Node[int]
+	RemoveRangeByScore(min, max float64) []zset.Node[int]
+	RemoveRangeByScoreWithOpt(min, max float64, opt zset.RangeOpt) []zset.Node[int]
+}
+
+var _ zapi = (*zset.Set[int])(nil)
+var _ zapi = (*zset.SetSafe[int])(nil)
+
+func exec(z zapi, o *op) (out string) {
 	src.plan(o.Hs)
 	p, pv := vhlib.Recover(func() {
 		a, b := fl(o.A), fl(o.B)
@@ -353,22 +388,42 @@ func dumpTerm(z *zset.Set[int]) string {
 // ---------- a running case ----------
 
 type run struct {
-	z      *zset.Set[int]
-	steps  []string
-	labels []string
-	ops    []*op
-	maxLen int
-	shape  string
+	z       zapi
+	steps   []string
+	labels  []string
+	ops     []*op
+	maxLen  int
+	shape   string
+	flavour string
 }
 
-func newRun() *run { return &run{z: zset.New[int](nextShape()), shape: curShape} }
+// curRun: the case being recorded (generators look at its set to aim bounds at scores that are present)
+var curRun *run
+var flavourCount = 0
+var forceFlavour = "" // "safe" / "plain": the next run's flavour regardless of the count
+
+// newRun: a fresh set; every fourth case is built with zset.NewSafe (the modulus differs from the
+// comparator shapes' so that the two vary independently)
+func newRun() *run {
+	cmp := nextShape()
+	flavourCount++
+	r := &run{shape: curShape, flavour: "plain"}
+	if (flavourCount%4 == 1 && forceFlavour == "") || forceFlavour == "safe" {
+		r.flavour = "safe"
+		r.z = zset.NewSafe[int](cmp)
+	} else {
+		r.z = zset.New[int](cmp)
+	}
+	curRun = r
+	return r
+}
 
 // do executes o; dump: attach the structural dump taken right after it
 func (r *run) do(o *op, dump bool) {
 	out := exec(r.z, o)
 	d := "None"
-	if dump {
-		d = "(Some " + dumpTerm(r.z) + ")"
+	if p, ok := r.z.(*zset.Set[int]); dump && ok {
+		d = "(Some " + dumpTerm(p) + ")" // the safe flavour keeps its Set unexported: no structural dump
 	}
 	r.steps = append(r.steps, fmt.Sprintf("mkStep (%s) (%s) %s", o.coq(), out, d))
 	r.labels = append(r.labels, o.K)
@@ -488,7 +543,10 @@ func (r *run) endsBatteryLarge(probe []int) {
 
 func (r *run) emit(w *vhlib.Writer, label string) {
 	term := "CSeq [\n  " + strings.Join(r.steps, ";\n  ") + "]"
-	w.Case(term, label, r.maxLen >= 2, r.labels, map[string]interface{}{"kind": "seq", "cmp": r.shape, "ops": r.ops})
+	if r.flavour != "plain" {
+		label += "/" + r.flavour
+	}
+	w.Case(term, label, r.maxLen >= 2, r.labels, map[string]interface{}{"kind": "seq", "cmp": r.shape, "flavour": r.flavour, "ops": r.ops})
 }
 
 // ---------- generators ----------
@@ -505,7 +563,9 @@ func (g *gen) hs(n int) []int {
 	return pickHs(g.r, n)
 }
 
-func (g *gen) mutator(profile string, i int, n int) *op {
+func (g *gen) mutator(profile string, i int, n int) *op { return g.snap(g.mutator0(profile, i, n)) }
+
+func (g *gen) mutator0(profile string, i int, n int) *op {
 	r := g.r
 	switch profile {
 	case "ascending":
@@ -596,10 +656,44 @@ func (g *gen) mutator(profile string, i int, n int) *op {
 	}
 }
 
+// snap: half of the randomly generated score-range calls with options get their bounds moved onto
+// scores that are present in the set, with at least one bound exclusive - members exactly ON an
+// excluded bound are the inputs on which the exclusivity flags matter.
+func (g *gen) snap(o *op) *op {
+	switch o.K {
+	case "RemoveRangeByScoreWithOpt", "CountWithOpt", "RangeByScoreWithOpt", "RevRangeByScoreWithOpt":
+	default:
+		return o
+	}
+	if curRun == nil || !g.r.Chance(1, 2) {
+		return o
+	}
+	cur := curRun.z.Range(0, -1)
+	if len(cur) == 0 {
+		return o
+	}
+	i := g.r.Intn(len(cur))
+	j := i + g.r.Intn(4)
+	if j >= len(cur) {
+		j = len(cur) - 1
+	}
+	lo, hi := int(fscore(cur[i].Score)), int(fscore(cur[j].Score))
+	e := 1 + g.r.Intn(3)
+	o.ExMin, o.ExMax = e&1 == 1, e&2 == 2
+	if o.K == "RevRangeByScoreWithOpt" {
+		o.A, o.B = hi, lo
+	} else {
+		o.A, o.B = lo, hi
+	}
+	return o
+}
+
 var queryKinds = []string{"Len", "Size", "Empty", "Values", "Score", "ContainsB", "Contains", "Rank", "RevRank", "Count", "CountWithOpt",
 	"Range", "RevRange", "RangeByScore", "RangeByScoreWithOpt", "RevRangeByScore", "RevRangeByScoreWithOpt"}
 
-func (g *gen) query(n int) *op {
+func (g *gen) query(n int) *op { return g.snap(g.query0(n)) }
+
+func (g *gen) query0(n int) *op {
 	r := g.r
 	k := queryKinds[r.Intn(len(queryKinds))]
 	lo, hi := g.scores[0]-1, g.scores[len(g.scores)-1]+1
@@ -881,7 +975,9 @@ func main() {
 		for s := -spread; s <= spread; s++ {
 			g.scores = append(g.scores, s)
 		}
+		forceFlavour = []string{"plain", "safe"}[c%2]
 		run := newRun()
+		forceFlavour = ""
 		total := 3 * target
 		for i := 0; i < total; i++ {
 			n := run.z.Len()
@@ -923,7 +1019,7 @@ func main() {
 					m = &op{K: "RemoveRangeByScore", A: lo, B: lo + g.r.Range(0, 1)}
 				}
 			}
-			run.doM(m, i%dumpEvery == dumpEvery-1 || i == total-1, nil, true)
+			run.doM(g.snap(m), i%dumpEvery == dumpEvery-1 || i == total-1, nil, true)
 			// one query per step, windows instead of whole-set listings
 			n = run.z.Len()
 			var q *op
@@ -950,7 +1046,7 @@ func main() {
 			default:
 				q = &op{K: []string{"Len", "Size", "Empty", "Score"}[g.r.Intn(4)], B: g.member()}
 			}
-			run.do(q, false)
+			run.do(g.snap(q), false)
 		}
 		run.do(&op{K: "Values"}, false)
 		run.emit(w, "large")
@@ -1161,12 +1257,18 @@ func replay(path string) {
 	}
 	var ops []*op
 	json.Unmarshal(top["ops"], &ops)
-	z := zset.New[int](cmp)
+	var flavour string
+	json.Unmarshal(top["flavour"], &flavour)
+	var z zapi = zset.New[int](cmp)
+	if flavour == "safe" {
+		z = zset.NewSafe[int](cmp)
+	}
+	fmt.Printf("flavour: %q\n", flavour)
 	for i, x := range ops {
 		out := exec(z, x)
 		fmt.Printf("%3d %-60s -> %s   [Len %d]\n", i, x.coq(), out, z.Len())
-		if mutates(x.K) {
-			fmt.Printf("      dump: %s\n", dumpTerm(z))
+		if p, ok := z.(*zset.Set[int]); ok && mutates(x.K) {
+			fmt.Printf("      dump: %s\n", dumpTerm(p))
 		}
 	}
 }
